@@ -343,7 +343,25 @@ func c19r2(c *core.Ctx) {
 	// the entity figures are built in the statistics function or in a helper of it: any construction of the entity
 	// statistics in the package counts, whether written as a literal or field by field
 	for _, g := range m.AllFuncs() {
-		for _, cn := range constructionsOf(m, g) {
+		cons := constructionsOf(m, g)
+		// stores into the fields of an existing value (w.stats.Entities.Used = ...) count like a construction
+		direct := construction{typ: "Entities", fields: map[string]ast.Expr{}}
+		core.InspectNoLits(g.Body, func(n ast.Node) bool {
+			if as, ok := n.(*ast.AssignStmt); ok && len(as.Lhs) == len(as.Rhs) {
+				for i, l := range as.Lhs {
+					if sel, ok := ast.Unparen(l).(*ast.SelectorExpr); ok && m.FieldOf(sel) != nil && identOf(sel.X) == nil {
+						if tv, ok := m.Info.Types[sel.X]; ok && core.NamedName(tv.Type) == "Entities" && strings.HasSuffix(tv.Type.String(), "stats.Entities") {
+							direct.fields["Entities."+sel.Sel.Name] = as.Rhs[i]
+						}
+					}
+				}
+			}
+			return true
+		})
+		if len(direct.fields) > 0 {
+			cons = append(cons, direct)
+		}
+		for _, cn := range cons {
 			if cn.typ != "Entities" {
 				continue
 			}
